@@ -130,7 +130,7 @@ def check(ctx):
                        "from_hdf5 function beyond the confirmed ones (float(complex) and int(float) drop information)", 1)
     ctx.rule("R14.12", "each stored key carries the attribute that the reader feeds back into the same attribute: writer `h5[K] = self.A`, "
                        "reader `Cls(P=h5[K])`, constructor `self.A = f(P)` name one and the same A", 12)
-    ctx.rule("R14.13", "a field is written whenever it is set: the guards of `h5[K] = self.A` mention no attribute other than A", 12)
+    ctx.rule("R14.13", "a field is written whenever it is set: the guards of `h5[K] = self.A` mention no attribute other than A", 6)
     ctx.rule("R14.8", "equality of sequences of sub-objects compares lengths (no silent truncation by zip)", 2)
     ctx.rule("R14.2", "options: None values are dropped on save, so every Optional field must default to None "
                       "(or the reader must restore None)", 1)
@@ -139,89 +139,7 @@ def check(ctx):
     ctx.rule("R14.5", "serialize_func / deserialize_func use the same two names for the same three callables and read from the group given", 3)
     ctx.rule("R14.6", "TDGLData writer and reader special-case the same fields (step in the group name, state in attrs)", 2)
 
-    for mod, cls, wname, rname in PAIRS:
-        w = repo.func(mod, f"{cls}.{wname}")
-        r = repo.func(mod, f"{cls}.{rname}")
-        wk = key_uses(w)
-        rk = key_uses(r)
-        wset = {(u.kind.rstrip("?"), u.key) for u in wk if not u.kind.endswith("?")}
-        rset = {("attr" if u.kind.startswith("attr") else "data", u.key) for u in rk}
-        if cls == "Mesh":
-            # edge_mesh sub-keys are EdgeMesh's business; mesh reader may also recompute from (sites, elements)
-            pass
-        if cls == "DynamicsData":
-            # the reader also accepts the solver's output layout (frames under "data", written by DataHandler: C05's business)
-            rset.discard(("data", "data"))
-        only_w, only_r = sorted(wset - rset), sorted(rset - wset)
-        ctx.ob("R14.1", f"{cls}: keys written == keys read", not only_w and not only_r,
-               detail={"written": sorted(wset), "read": sorted(rset), "only_written": only_w, "only_read": only_r},
-               where=w.fq, construct=f"{cls} key set", loc=loc(w, w.node),
-               message=f"{cls}: written but never read {only_w}; read but never written {only_r}",
-               consequence=f"a {cls} read back differs from the one saved (field dropped or KeyError on load)")
-        # conditional writes must be read conditionally
-        bad = []
-        for u in wk:
-            if u.kind.endswith("?"):
-                continue
-            if any("is not None" in g or g.startswith("not ") or "and" in g for g in u.cond) and u.cond:
-                cond_read = any(x.key == u.key and (x.kind.endswith("?") or x.kind == "attr-get" or x.cond) for x in rk)
-                if not cond_read:
-                    bad.append(f"{u.key} written under {u.cond} but read unconditionally")
-        for u in rk:
-            if u.kind in ("data", "attr") and not u.cond:
-                ws = [x for x in wk if x.key == u.key and not x.kind.endswith("?")]
-                if ws and all(x.cond and any("is not None" in g for g in x.cond) for x in ws):
-                    bad.append(f"{u.key} read unconditionally but written only under {ws[0].cond}")
-        bad = sorted(set(bad))
-        ctx.ob("R14.1", f"{cls}: optional keys are optional on both sides", not bad, detail=bad, where=r.fq,
-               construct=f"{cls} optional keys", loc=loc(r, r.node), message=f"{cls}: {bad}",
-               consequence="loading an object whose optional field is unset raises KeyError")
-        # constructor coverage
-        params = ctor_params(repo, mod, cls)
-        cc = ctor_call_kwargs(r, cls)
-        if cc is None:
-            raise AnalysisError(f"{cls}.{rname} no longer constructs a {cls}")
-        kws, npos = cc
-        covered = set(params[:npos]) | kws
-        optional = set()
-        c = repo.cls(mod, cls)
-        init = repo.method(c, "__init__")
-        if init is not None:
-            a = init.node.args
-            nd = len(a.defaults)
-            optional |= {p.arg for p in a.args[len(a.args) - nd:]} if nd else set()
-            optional |= {p.arg for p, d in zip(a.kwonlyargs, a.kw_defaults) if d is not None}
-        else:
-            optional |= {s.target.id for s in c.node.body if isinstance(s, ast.AnnAssign) and s.value is not None}
-        derived = {s.target.id for s in c.node.body if isinstance(s, ast.AnnAssign) and s.value is not None
-                   and "init=False" in norm(s.value)} if init is None else set()
-        missing = [p for p in params if p not in covered and p not in derived]
-        # each constructor keyword must be fed from the key the writer stored that attribute under
-        wmap = {}
-        for n in ast.walk(w.node):
-            if isinstance(n, ast.Assign) and isinstance(n.targets[0], ast.Subscript) and isinstance(n.targets[0].slice, ast.Constant) \
-                    and isinstance(n.value, ast.Attribute) and isinstance(n.value.value, ast.Name) and n.value.value.id == "self":
-                wmap[n.targets[0].slice.value] = n.value.attr
-        crossed = []
-        for n in ast.walk(r.node):
-            if isinstance(n, ast.Call) and getattr(n.func, "id", None) in (cls, "cls"):
-                for k in n.keywords:
-                    keys = {x.slice.value for x in ast.walk(k.value) if isinstance(x, ast.Subscript) and isinstance(x.slice, ast.Constant)
-                            and isinstance(x.slice.value, str)}
-                    keys |= {x.args[0].value for x in ast.walk(k.value) if isinstance(x, ast.Call) and getattr(x.func, "id", "") == "get"
-                             and x.args and isinstance(x.args[0], ast.Constant)}
-                    for key in keys:
-                        if key in wmap and wmap[key] in params and wmap[key] != k.arg:
-                            crossed.append(f"{k.arg} <- key {key!r} (written from self.{wmap[key]})")
-        ctx.ob("R14.1", f"{cls}: each constructor argument is read from the key its attribute was written under", not crossed,
-               detail={"writer_map": wmap, "crossed": crossed}, where=r.fq, construct=f"{cls} key-to-parameter map", loc=loc(r, r.node),
-               message=f"{cls}.{rname} crosses fields: {crossed}", consequence="a field reloads with the value of another field")
-        ctx.ob("R14.1", f"{cls}: reader passes every constructor parameter", not missing,
-               detail={"params": params, "passed": sorted(covered), "missing": missing}, where=r.fq,
-               construct=f"{cls}(...) in {rname}", loc=loc(r, r.node),
-               message=f"{cls}.{rname} does not pass {missing}",
-               consequence="the reloaded object silently takes the default for that field")
-
+    roundtrips(ctx)
     stored_value_defaulting(ctx)
     equality_truncation(ctx)
     export_carries_data(ctx)
@@ -383,28 +301,62 @@ def callables(ctx):
 
 
 def tdgl_data(ctx):
+    """R14.6 by a symbolic round trip (pvs/h5model.py): TDGLData.to_hdf5 is followed into the group `data` of a model file and
+    TDGLData.from_hdf5 is followed on that file for the same step."""
+    from ..h5model import Group, follow_writer, follow_reader, sources
+    from ..smallstep import Opaque as SO, render
     repo = ctx.repo
     w = repo.func("tdgl.solution.data", "TDGLData.to_hdf5")
     r = repo.func("tdgl.solution.data", "TDGLData.from_hdf5")
-
-    def specials(fi):
-        out = set()
-        for n in ast.walk(fi.node):
-            if isinstance(n, ast.Compare) and isinstance(n.ops[0], ast.In) and isinstance(n.comparators[0], (ast.List, ast.Tuple, ast.Set)):
-                out |= {e.value for e in n.comparators[0].elts if isinstance(e, ast.Constant)}
-            # the same special-casing spelled `name == "step"`
-            if isinstance(n, ast.Compare) and len(n.ops) == 1 and isinstance(n.ops[0], (ast.Eq, ast.NotEq)):
-                for a_, b_ in ((n.left, n.comparators[0]), (n.comparators[0], n.left)):
-                    if isinstance(a_, ast.Name) and isinstance(b_, ast.Constant) and isinstance(b_.value, str):
-                        out.add(b_.value)
-        return out
-    ws, rs = specials(w), specials(r)
-    ctx.ob("R14.6", "writer and reader special-case {step, state}", ws == rs == {"step", "state"}, detail={"w": sorted(ws), "r": sorted(rs)},
-           where=w.fq, construct="TDGLData special fields", loc=loc(w, w.node), message=f"writer {ws}, reader {rs}",
+    C = repo.cls("tdgl.solution.data", "TDGLData")
+    fields = [s_.target.id for s_ in C.node.body if isinstance(s_, ast.AnnAssign) and isinstance(s_.target, ast.Name)]
+    if not {"step", "state"} <= set(fields) or len(fields) < 6:
+        raise AnalysisError(f"TDGLData no longer has the fields step, state and the per-step arrays ({fields})")
+    root = Group("file")
+    data = Group("file/'data'")
+    root.items["data"] = data
+    kind, val, root, _, _ = follow_writer(w, set(), {}, root=root, into=data)
+    if kind != "return":
+        raise AnalysisError(f"TDGLData.to_hdf5 raises {val} in the model")
+    rparams = [a_.arg for a_ in r.node.args.args]
+    if "step" not in rparams:
+        raise AnalysisError("TDGLData.from_hdf5 no longer takes `step`")
+    k2, v2, _, _ = follow_reader(r, root, given={"step": SO("self.step")})
+    step_groups = [g for g in data.items.values() if isinstance(g, Group)]
+    stored = {}
+    for g in step_groups:
+        for k_, v_ in g.items.items():
+            stored[k_] = ("data", sources(v_))
+        for k_, v_ in g.attrs.items.items():
+            stored[render(k_)] = ("attr", sources(v_))
+    bad = []
+    if k2 != "return":
+        bad.append(f"reading the written step raises {v2}")
+    elif not (isinstance(v2, SO) and v2.parts and v2.parts[0] == "call" and v2.parts[1] in ("TDGLData", "cls")):
+        raise AnalysisError(f"TDGLData.from_hdf5 does not return TDGLData(...) in the model ({render(v2)[:80]})")
+    else:
+        passed = dict(zip(fields, v2.parts[2]))
+        passed.update(v2.parts[3])
+        for f_ in fields:
+            if f_ not in passed:
+                bad.append(f"{f_} is not passed to the constructor")
+                continue
+            src = sources(passed[f_])
+            if f_ == "state":
+                ok = any(kind_ == "attr" and src_ == {"state"} for kind_, src_ in stored.values()) and "load_state_data" in render(passed[f_])
+            elif f_ == "step":
+                ok = src == {"step"} and len(step_groups) == 1 and sources(next(iter(data.items))) == {"step"}
+            else:
+                ok = src == {f_} and stored.get(f_) == ("data", {f_})
+            if not ok:
+                bad.append(f"{f_} is restored from {sorted(src) or render(passed[f_])[:60]} (stored: {stored.get(f_)})")
+    ctx.ob("R14.6", "writer and reader special-case {step, state}: step names the group, state goes to attrs, every other field is a dataset "
+                    "of its own name", not bad, detail={"constructor": render(v2)[:500], "problems": bad},
+           where=w.fq, construct="TDGLData special fields", loc=loc(w, w.node), message=f"TDGLData round trip: {bad[:3]}",
            consequence="a per-step field is written as a dataset but read from attrs (or vice versa)")
-    uses_fields = "dataclasses.fields(TDGLData)" in norm(r.node) and "dataclasses.asdict(self)" in norm(w.node)
-    ctx.ob("R14.6", "both sides enumerate the dataclass fields", uses_fields, where=r.fq, construct="TDGLData field enumeration",
-           message="writer/reader no longer enumerate the dataclass fields", consequence="a new field is saved but not loaded")
+    ctx.ob("R14.6", "both sides enumerate the dataclass fields", k2 == "return" and not any("not passed" in x for x in bad), where=r.fq,
+           construct="TDGLData field enumeration", detail=fields,
+           message="writer/reader no longer cover all dataclass fields", consequence="a new field is saved but not loaded")
 
 
 def dynamics_detection(ctx):
@@ -586,6 +538,7 @@ def reader_casts(ctx):
                                "imaginary part through float(), so loaded.options != solution.options")
     if n < 8:
         raise AnalysisError(f"only {n} reader functions found")
+    ctx.ob("R14.11", f"{n} reader functions scanned for narrowing casts", True, detail={"readers": n}, where="package", construct="reader casts (package)")
 
 
 # ---------------------------------------------------------------------------
@@ -597,32 +550,15 @@ def _const_keys(e):
 
 
 def key_attribute_agreement(ctx):
+    """R14.12 on the round trips of R14.1: the attribute a constructor argument was written from (followed through writer and
+    reader) is the attribute the constructor initialises from that argument."""
+    from ..h5model import sources
     repo = ctx.repo
     n = 0
     for mod, cls, wname, rname in PAIRS:
         C = repo.cls(mod, cls)
-        w, r = C.methods[wname], C.methods[rname]
-        # writer: key -> attribute
-        wmap = {}
-        for st in own_nodes(w.node):
-            if isinstance(st, ast.Assign) and isinstance(st.targets[0], ast.Subscript) and isinstance(st.targets[0].slice, ast.Constant) \
-                    and isinstance(st.targets[0].slice.value, str):
-                attrs = {x.attr for x in ast.walk(st.value) if isinstance(x, ast.Attribute) and isinstance(x.value, ast.Name) and x.value.id == "self"}
-                if len(attrs) == 1:
-                    wmap[st.targets[0].slice.value] = (attrs.pop(), st)
-        # reader: key -> constructor parameter
-        rmap = {}
-        for c in own_nodes(r.node):
-            if isinstance(c, ast.Call) and norm(c.func) in (cls, "cls"):
-                for k in c.keywords:
-                    if k.arg is None:
-                        continue
-                    ks = set(_const_keys(k.value))
-                    if isinstance(k.value, ast.Name):
-                        from ..dataflow import expand
-                        ks = set(_const_keys(expand(r.node, k.value)))
-                    if len(ks) == 1:
-                        rmap[ks.pop()] = k.arg
+        rt = ctx._rt[cls]
+        w, r = rt["writer"], rt["reader"]
         # constructor: parameter -> attribute
         init = C.methods.get("__init__")
         cmap = {}
@@ -632,27 +568,30 @@ def key_attribute_agreement(ctx):
                 if isinstance(st, (ast.Assign, ast.AnnAssign)) and st.value is not None:
                     tg = st.targets[0] if isinstance(st, ast.Assign) else st.target
                     if isinstance(tg, ast.Attribute) and isinstance(tg.value, ast.Name) and tg.value.id == "self":
-                        used = {x.id for x in ast.walk(st.value) if isinstance(x, ast.Name) and x.id in params}
+                        import re as _re
+                        used = {_re.sub(r"__h\d+$", "", x.id) for x in ast.walk(st.value) if isinstance(x, ast.Name)} & params
                         if len(used) == 1:
                             cmap.setdefault(used.pop(), tg.attr)
         else:
             for st in C.node.body:          # dataclass: field == parameter == attribute
                 if isinstance(st, ast.AnnAssign) and isinstance(st.target, ast.Name):
                     cmap[st.target.id] = st.target.id
-        for key, (attr, st) in sorted(wmap.items()):
-            if key not in rmap or rmap[key] not in cmap:
+        for p_, v in sorted(rt["passed"].items()):
+            src = sources(v)
+            if len(src) != 1 or p_ not in cmap:
                 continue
+            attr = next(iter(src))
             n += 1
-            back = cmap[rmap[key]]
+            back = cmap[p_]
             # a property setter may store under a private name (points -> _points)
             ok = back == attr or back.lstrip("_") == attr.lstrip("_")
-            ctx.ob("R14.12", f"{cls}: key {key!r} written from self.{attr}, read into `{rmap[key]}` -> self.{back}", ok, where=w.fq,
-                   construct=f"{cls} key {key!r}: written from {attr}, restored into {back}", loc=loc(w, st),
-                   message=f"{cls}.{wname} stores `self.{attr}` under {key!r}, but {cls}.{rname} feeds that key into `{rmap[key]}`, which initialises `self.{back}`",
+            ctx.ob("R14.12", f"{cls}: self.{attr} is written, read into `{p_}` -> self.{back}", ok, where=w.fq,
+                   construct=f"{cls}: written from {attr}, restored into {back}", loc=loc(w, w.node),
+                   message=f"{cls}.{wname} stores `self.{attr}`, but {cls}.{rname} feeds it into `{p_}`, which initialises `self.{back}`",
                    consequence=f"a reloaded {cls} carries another quantity in `{back}` than the one that was saved (e.g. unit vectors instead of edge vectors): "
                                "it is no longer the object that was written, and operators built on it are wrong")
     if n < 12:
-        raise AnalysisError(f"writer/reader/constructor agreement found only {n} keys")
+        raise AnalysisError(f"writer/reader/constructor agreement found only {n} constructor arguments")
 
 
 # ---------------------------------------------------------------------------
@@ -660,32 +599,129 @@ def key_attribute_agreement(ctx):
 # ---------------------------------------------------------------------------
 
 def write_guards(ctx):
-    repo = ctx.repo
+    """R14.13 on the round trips of R14.1: unsetting one optional attribute removes from the file only what was computed from it."""
     n = 0
     for mod, cls, wname, rname in PAIRS:
-        C = repo.cls(mod, cls)
-        w = C.methods[wname]
-        pm = parent_map(w.node)
-        for st in own_nodes(w.node):
-            if not (isinstance(st, ast.Assign) and isinstance(st.targets[0], ast.Subscript) and isinstance(st.targets[0].slice, ast.Constant)
-                    and isinstance(st.targets[0].slice.value, str)):
+        rt = ctx._rt[cls]
+        w = rt["writer"]
+        full = rt["keysets"].get("", {})
+        n += len(full)
+        for a_ in rt["tested"]:
+            ks = rt["keysets"].get(a_)
+            if ks is None:
                 continue
-            attrs = {x.attr for x in ast.walk(st.value) if isinstance(x, ast.Attribute) and isinstance(x.value, ast.Name) and x.value.id == "self"}
-            if len(attrs) != 1:
-                continue
-            a = next(iter(attrs))
-            n += 1
-            foreign = []
-            for g, br in guards_of(w.node, st, pm):
-                if isinstance(g, ast.If):
-                    others = {x.attr for x in ast.walk(g.test) if isinstance(x, ast.Attribute) and isinstance(x.value, ast.Name) and x.value.id == "self"} - {a}
-                    # flags of the writer itself (save_mesh=...) are parameters, not attributes: they are fine
-                    if others:
-                        foreign.append(f"{norm(g.test)} (mentions {sorted(others)})")
-            key = st.targets[0].slice.value
-            ctx.ob("R14.13", f"{cls}: key {key!r} (self.{a}) is written under guards on self.{a} only", not foreign, detail=foreign, where=w.fq,
-                   construct=f"{cls} key {key!r} written only when another attribute is set", loc=loc(w, st),
-                   message=f"{cls}.{wname} writes {key!r} (self.{a}) only under {foreign}: whether the field is saved depends on another field",
-                   consequence=f"a {cls} that has `{a}` set but not the other attribute loses `{a}` on save: the reloaded object differs from the saved one")
+            foreign = sorted(f"{k_} (from {sorted(src)})" for k_, src in full.items() if k_ not in ks and src and a_ not in src)
+            ctx.ob("R14.13", f"{cls}: with self.{a_} unset (or empty) only what is computed from it is left out of the file", not foreign, detail=foreign, where=w.fq,
+                   construct=f"{cls}: keys written only when {a_} is set", loc=loc(w, w.node),
+                   message=f"{cls}.{wname} leaves out {foreign} when `{a_}` is unset or empty: whether those fields are saved depends on another field",
+                   consequence=f"a {cls} that has the other attribute set but not `{a_}` loses it on save: the reloaded object differs from the saved one")
     if n < 12:
-        raise AnalysisError(f"only {n} guarded key writes examined")
+        raise AnalysisError(f"only {n} stored keys examined")
+
+
+def roundtrips(ctx):
+    """R14.1 by symbolic round trips (pvs/h5model.py): the writer is followed into a model of an HDF5 group - once with every
+    optional attribute set, once per optional attribute unset, once with all of them unset, and for both values of every boolean
+    writer option - and the reader is followed on exactly that group."""
+    import itertools
+    from ..h5model import follow_writer, follow_reader, sources, unread, all_keys, missed_keys
+    from ..smallstep import Opaque as SO, render
+    repo = ctx.repo
+    for mod, cls, wname, rname in PAIRS:
+        w = repo.func(mod, f"{cls}.{wname}")
+        r = repo.func(mod, f"{cls}.{rname}")
+        a = w.node.args
+        bool_flags = [p.arg for p, d in zip(a.args[len(a.args) - len(a.defaults):], a.defaults) if isinstance(d, ast.Constant) and isinstance(d.value, bool)]
+        _, _, _, tested, log0 = follow_writer(w, set(), {})
+        emptiable = sorted(log0.get("emptiable", ()))
+        unsets = [set()] + [{t} for t in sorted(tested)] + ([set(tested)] if len(tested) > 1 else [])
+        ever_read: Dict[str, bool] = {}
+        probed: Set[str] = set()
+        raised_set, raised_unset, scen = [], [], []
+        ctor = None
+        keysets: Dict[str, Dict[str, set]] = {}       # scenario tag -> {key: attributes its value comes from}
+        for unset in unsets:
+            for vals in itertools.product((None, True, False), repeat=len(bool_flags)) if bool_flags else [()]:
+                flags = {p_: v for p_, v in zip(bool_flags, vals) if v is not None}
+                if any(v is None for v in vals) and any(v is not None for v in vals):
+                    continue
+                tag = f"unset={sorted(unset)}" + (f" {flags}" if flags else "")
+                kind, val, root, _, _ = follow_writer(w, unset, flags)
+                if kind != "return":
+                    raise AnalysisError(f"{w.fq} raises {val} in the model ({tag})")
+                k2, v2, mach, _ = follow_reader(r, root)
+                scen.append(tag)
+                if not flags:
+                    ks = {}
+                    for g_ in root.all_groups():
+                        for k_, v_ in list(g_.items.items()) + list(g_.attrs.items.items()):
+                            if not hasattr(v_, "all_groups"):
+                                ks[f"{g_.path}[{render(k_)}]"] = sources(v_)
+                    keysets[",".join(sorted(unset))] = ks
+                if k2 != "return":
+                    (raised_unset if unset else raised_set).append(f"{tag}: {v2}")
+                    continue
+                u = set(unread(root))
+                probed |= set(missed_keys(root))
+                for k_ in all_keys(root):
+                    ever_read[k_] = ever_read.get(k_, False) or k_ not in u
+                for k_ in u:
+                    ever_read.setdefault(k_, False)
+                if not unset and not flags:
+                    ctor = v2
+        # collections that the writer tests for emptiness: one scenario each with that collection empty
+        for e_ in emptiable:
+            kind, val, root, _, _ = follow_writer(w, set(), {}, empty={e_})
+            if kind != "return":
+                raise AnalysisError(f"{w.fq} raises {val} in the model (empty {e_})")
+            k2, v2, mach, _ = follow_reader(r, root)
+            scen.append(f"empty={e_}")
+            ks = {}
+            for g_ in root.all_groups():
+                for k_, v_ in list(g_.items.items()) + list(g_.attrs.items.items()):
+                    if not hasattr(v_, "all_groups"):
+                        ks[f"{g_.path}[{render(k_)}]"] = sources(v_)
+            keysets[e_] = ks
+            tested = set(tested) | {e_}
+            if k2 != "return":
+                raised_unset.append(f"empty={e_}: {v2}")
+        ctx.note(f"roundtrip_scenarios_{cls}", scen)
+        nr = sorted(k_ for k_, v_ in ever_read.items() if not v_)
+        # keys the reader looks for although no scenario of the writer creates them
+        nw = sorted(k_ for k_ in probed if k_ not in ever_read and not (cls == "DynamicsData" and k_ == "file['data']"))
+        ctx.ob("R14.1", f"{cls}: keys written == keys read", not raised_set and not nr and not nw,
+               detail={"scenarios": len(scen), "reader_raises": raised_set, "never_read": nr, "looked_for_but_never_written": nw},
+               where=w.fq, construct=f"{cls} key set", loc=loc(w, w.node),
+               message=f"{cls}: written but never read {nr}; read but never written {nw}; reading what was written raises {raised_set}",
+               consequence=f"a {cls} read back differs from the one saved (field dropped or KeyError on load)")
+        ctx.ob("R14.1", f"{cls}: optional keys are optional on both sides", not raised_unset, detail=raised_unset, where=r.fq,
+               construct=f"{cls} optional keys", loc=loc(r, r.node), message=f"{cls}: {raised_unset}",
+               consequence="loading an object whose optional field is unset raises KeyError")
+        # the constructor call of the all-set scenario
+        params = ctor_params(repo, mod, cls)
+        is_ctor = isinstance(ctor, SO) and ctor.parts is not None and ctor.parts[0] == "call" and ctor.parts[1] in (cls, "cls")
+        if not is_ctor:
+            raise AnalysisError(f"{cls}.{rname} does not return {cls}(...) for a fully written group in the model (returns {render(ctor)[:80]})")
+        passed = dict(zip(params, ctor.parts[2]))
+        passed.update(ctor.parts[3])
+        crossed = []
+        for p_, v in passed.items():
+            src = sources(v)
+            if src and p_ not in src and (src & set(params)):
+                crossed.append(f"{p_} <- {sorted(src)}")
+        c = repo.cls(mod, cls)
+        init = repo.method(c, "__init__")
+        derived = {s_.target.id for s_ in c.node.body if isinstance(s_, ast.AnnAssign) and s_.value is not None
+                   and "init=False" in norm(s_.value)} if init is None else set()
+        missing = [p_ for p_ in params if p_ not in passed and p_ not in derived]
+        if not hasattr(ctx, "_rt"):
+            ctx._rt = {}
+        ctx._rt[cls] = {"passed": passed, "keysets": keysets, "tested": sorted(tested), "writer": w, "reader": r}
+        ctx.ob("R14.1", f"{cls}: each constructor argument is read from the key its attribute was written under", not crossed,
+               detail={"constructor": render(ctor)[:400], "crossed": crossed}, where=r.fq, construct=f"{cls} key-to-parameter map", loc=loc(r, r.node),
+               message=f"{cls}.{rname} crosses fields: {crossed}", consequence="a field reloads with the value of another field")
+        ctx.ob("R14.1", f"{cls}: reader passes every constructor parameter", not missing,
+               detail={"params": params, "passed": sorted(passed), "missing": missing}, where=r.fq,
+               construct=f"{cls}(...) in {rname}", loc=loc(r, r.node),
+               message=f"{cls}.{rname} does not pass {missing}",
+               consequence="the reloaded object silently takes the default for that field")
